@@ -16,7 +16,9 @@ candidates, ballots, seats; any ballot contents) and every lawful arithmetic:
 
 * `wigm_seats_filled_fixed` (wigm, wigm-prf, wigm-prf-batch; every configuration except `defeat_batch=zero`).
 
-Not proved here: mpls, wigm with `defeat_batch=zero`, the Meek family and QPQ (their termination is decided by the
+* `mpls_seats_filled_fixed` (Minneapolis, profiles without undeclared write-ins; with them: open finding F7).
+
+Not proved here: wigm with `defeat_batch=zero`, the Meek family and QPQ (their termination is decided by the
 correspondence runs and the `okC01` oracle on both records), and the case seats > candidates.
 -/
 namespace Droop.C01
@@ -123,5 +125,29 @@ theorem wigm_seats_filled_fixed (p : Nat) (o : WigmOpts) (hz : o.batchZero = fal
   have h0 := wigm_start p o s0 hinit hfresh henough hround
   obtain ⟨t, ht⟩ := wigmCount_terminates' _ (fixed_lawful p) o hz (fun _ => rfl) s0 h0
   exact ⟨t, ht, wigm_result _ (fixed_lawful p) o hz (fun _ => rfl) s0 t h0 ht⟩
+
+/-! ## Minneapolis (profiles without undeclared write-ins) -/
+
+theorem mpls_start (p : Nat) (s0 : St Int) (hinit : Init (fixedArith p) s0) (hfresh : ∀ c ∈ s0.cands, c.st ≠ .elected)
+    (henough : s0.seats ≤ nHop s0) (hround : s0.round = 0) : GStart (fixedArith p) (mplsQuota (fixedArith p) s0) s0 := by
+  have hS := pow10_pos p
+  have hnn : 0 ≤ pdiv (s0.nballots : Int) ((s0.seats : Int) + 1) := pdiv_nonneg _ _ (by positivity) (by positivity)
+  refine ⟨hinit, ?_, hfresh, henough, hround, ?_⟩
+  · show 0 < (pdiv (s0.nballots : Int) ((s0.seats : Int) + 1) + 1) * pow10 p
+    positivity
+  · have := integer_droopQuota (fixedArith p) (fixed_lawful p) s0.nballots s0.seats
+    simpa [mplsQuota] using this
+
+/-- the Minneapolis count of a profile without undeclared write-ins returns, with a forward-only append-only record, and
+    unless the crash flag is up exactly `seats` candidates are elected and nobody is left hopeful -/
+theorem mpls_seats_filled_fixed (p : Nat) (s0 : St Int) (hinit : Init (fixedArith p) s0)
+    (hfresh : ∀ c ∈ s0.cands, c.st ≠ .elected) (henough : s0.seats ≤ nHop s0) (hround : s0.round = 0) (hnu : NoUnd s0) :
+    ∃ t, mplsCount (fixedArith p) s0 = some t
+      ∧ RecMon (snaps t.acts) ∧ Ext s0 t ∧ (t.crash = none → nEl t = t.seats ∧ nHop t = 0) := by
+  have h0 := mpls_start p s0 hinit hfresh henough hround
+  obtain ⟨t, ht⟩ := mplsCount_terminates _ (fixed_lawful p) rfl s0 h0 hnu
+  exact ⟨t, ht, mpls_result _ (fixed_lawful p) rfl s0 t h0 hnu ht⟩
+
+example : NoUnd C02.tiny := by intro c hc; simp [C02.tiny] at hc; rcases hc with rfl | rfl <;> rfl
 
 end Droop.C01
